@@ -44,3 +44,25 @@ func TestSmoke(t *testing.T) {
 		}
 	}
 }
+
+// go test -tags verif ./internal/c16 -run Corpus -v   (what the real code does on the corpus witnesses)
+func TestCorpus(t *testing.T) {
+	for _, op := range Ops() {
+		files, _ := os.ReadDir("../../../corpus/" + op.Name)
+		for _, f := range files {
+			b, err := os.ReadFile("../../../corpus/" + op.Name + "/" + f.Name())
+			if err != nil {
+				t.Fatal(err)
+			}
+			var c struct {
+				In json.RawMessage `json:"in"`
+			}
+			if err := json.Unmarshal(b, &c); err != nil {
+				t.Fatalf("%s: %v", f.Name(), err)
+			}
+			out, p := core.SafeImpl(op, c.In)
+			ob, _ := json.Marshal(out)
+			t.Logf("%s/%s\n  out %s panic=%v", op.Name, f.Name(), ob, p)
+		}
+	}
+}
